@@ -133,8 +133,8 @@ def queries(tier, prop='C09'):
                     add(e, subj, cmp_, cap, na, confirm_only=co, extra=x)
                 new_open = ss and 'C09_static_set_insert_iterator_new' in opn
                 dup_open = ss and 'C09_static_set_insert_iterator_dup' in opn
-                # static_set: nothing is left outside the two open iterator regions unless the set is full (NA == CAP keeps the full-set case)
-                whole = na < cap and new_open and (dup_open or na == 0)
+                # static_set: nothing (that carries an assertion) is left outside the two open iterator regions
+                whole = (na < cap and new_open and (dup_open or na == 0)) or (na == cap and dup_open)   # a full set has no iterator obligation for a new key
                 for e in INS:
                     if not full and e == 'insert_r':
                         continue
